@@ -1057,6 +1057,14 @@ def run_obligation(o, timeout_ms=20000, max_paths=4096, second=False):
                 undecided.append(g)
                 res.goals.append(g)
                 continue
+            except (KeyError, IndexError, AttributeError, TypeError) as e:
+                # the contract reads what the code recorded / returned; when the code under study no longer has the expected
+                # shape (a stub never called, another return type) the contract cannot be evaluated symbolically on this path:
+                # undecided here, decided by the concrete replay of the same contract on the real code
+                g = GoalResult("contract-not-evaluable-on-this-path", "unknown", 0, path=pid, note="%s: %s" % (type(e).__name__, str(e)[:250]))
+                undecided.append(g)
+                res.goals.append(g)
+                continue
             for label, goal in goals:
                 gz = goal.z if isinstance(goal, SBool) else bz(goal)
                 verdict, model, dt = E.prove(gz, S.idx_tuples)
